@@ -400,7 +400,8 @@ func (QMockScenario) Execute(sim *sched.Sim, ci interface{}, prop string, race b
 			qs.TriggerQueryChange(qc)
 		}
 	})
-	for i := 0; i < 30000; i++ {
+	for i := 0; ; i++ {
+		stepBound(i, 1000000, "qmock")
 		sim.Wait()
 		react()
 		decisions++
